@@ -46,7 +46,7 @@ def undo_single(ctx, info, doc, step, res_doc, reqs, metas, origin):
         detail = back.failed if stb == "ok" else str(back)
         r = dict(replay, inverse=inv.to_json(), outcome=stb, detail=str(detail)[:200], after=res_doc.to_json(),
                  undone=back.doc.to_json() if stb == "ok" and back.doc is not None else None,
-                 displaced_marks=displaced(step, doc))
+                 displaced_marks=displaced(step, doc), node_mark=node_mark_info(step, doc))
         ctx.violation("undo-" + type(step).__name__, "applying the inverted step does not restore the original document", r)
     # inverse map
     m, mi = step.get_map(), inv.get_map()
@@ -60,6 +60,19 @@ def undo_single(ctx, info, doc, step, res_doc, reqs, metas, origin):
     # model: its inverse, applied by the real code, must restore the document as well
     reqs.append({"op": "invert", "s": info.lean_id, "doc": info.node(doc), "step": info.step(step)})
     metas.append(("invert", replay, (info, doc, res_doc, ok)))
+
+
+def node_mark_info(step, doc):
+    """data for classifying node-mark undo failures (pure function of the replay)"""
+    if not isinstance(step, (AddNodeMarkStep, RemoveNodeMarkStep)):
+        return None
+    n = gen.safe_node_at(doc, step.pos)
+    if n is None:
+        return None
+    schema = doc.type.schema
+    return {"present": [[m.type.name, dict(m.attrs)] for m in n.marks], "mark": [step.mark.type.name, dict(step.mark.attrs)],
+            "add": isinstance(step, AddNodeMarkStep),
+            "excludes": {k: [e.name for e in t.excluded] for k, t in schema.marks.items()}}
 
 
 def displaced(step, doc):
@@ -155,7 +168,8 @@ def run(ctx):
                 ctx.violation("history-undo", "applying the inverted steps in reverse order does not restore the starting document",
                               dict(replay, failed_at=failed_at,
                                    step=tr.steps[k].to_json() if tr.steps else None,
-                                   displaced_marks=max([displaced(s, tr.docs[i]) or 0 for i, s in enumerate(tr.steps)] or [0])))
+                                   displaced_marks=max([displaced(s, tr.docs[i]) or 0 for i, s in enumerate(tr.steps)] or [0]),
+                                   node_mark=node_mark_info(tr.steps[k], tr.docs[k]) if tr.steps else None))
             # every single recorded step also undoes exactly (it is a step emitted by a high-level operation)
             for k, s in enumerate(tr.steps):
                 if isinstance(s, SINGLE_UNDO) and declared(s, tr.docs[k]):
